@@ -26,3 +26,6 @@ def run(ck):
                       "non-adjacent, nested), both strategies, cache off/one/cold; relocation read back through the "
                       "result's own sub-index table")
     ck.conform(progs)
+    if ck.tier != "quick":
+        # the repository's own suite with integer data: value-level clauses on every small enough call
+        ck.suite_trace(intfill=True, limit=48)
